@@ -178,7 +178,7 @@ func bcryptRaw(pw string) []byte {
 }
 
 // newRWorld builds the full reference stack and serves cfg.
-func newRWorld(cfg config.ServerConfig, kc *keychainRec, keepLog bool) (*rworld, error) {
+func newRWorld(cfg config.ServerConfig, kc *keychainRec, keepLog bool, opts ...tq.Option) (*rworld, error) {
 	lg := &srvx.Logger{Keep: keepLog}
 	sink := &sinkRec{}
 	acct, err := local.New(lg, local.SetLogSink(sink))
@@ -208,7 +208,7 @@ func newRWorld(cfg config.ServerConfig, kc *keychainRec, keepLog bool) (*rworld,
 	feed.ch <- cfg
 	ld.BlockUntilLoaded()
 	r.Loader, r.feed = ld, feed
-	r.W = srvx.Start(ld, lg)
+	r.W = srvx.Start(ld, lg, opts...)
 	sink.clock = r.W.Clock
 	return r, nil
 }
